@@ -66,9 +66,10 @@ def check_wire(spec):
         if len(w.segments) != n or not chain_ok(w, p1, p2, tol) or np.min(l) <= 0:
             viol.append({'id': name + '-does-not-tile-the-wire', 'observed': [len(w.segments), float(np.sum(l)), float(L)]})
             continue
-        if np.min(l) < lo * (1 - 1e-9):
+        # segment lengths are differences of coordinates: their rounding error scales with the coordinates (tol), not with lo
+        if np.min(l) < lo * (1 - 1e-9) - tol:
             viol.append({'id': name + '-segment-below-max(2.5r,min)', 'observed': float(np.min(l)), 'expected': lo})
-        if hi is not None and np.max(l) > hi * (1 + 1e-9):
+        if hi is not None and np.max(l) > hi * (1 + 1e-9) + tol:
             viol.append({'id': name + '-segment-above-max', 'observed': float(np.max(l)), 'expected': hi})
         seq = {1: l, 2: l[::-1]}.get(st)
         if seq is not None:
